@@ -12,6 +12,14 @@ open Einx.Notation (N NL NArgs NRoot isAxisName anonName axisOK isAnonAxisNone)
 /-- What the stage-1 parser can give a named axis: an identifier or the anonymous ellipsis name. -/
 def ParserName (s : String) : Prop := identName s = true ∨ s = Einx.Extracted.anonymousVariableName
 
+/-- An occurrence (name, enclosing ellipses) as the stage-1 parser can produce it: an identifier
+anywhere, or the anonymous name under at least one ellipsis. -/
+def ParserOcc (p : String × List Var) : Prop :=
+  identName p.1 = true ∨ (p.1 = Einx.Extracted.anonymousVariableName ∧ p.2 ≠ [])
+
+theorem ParserOcc.name {p : String × List Var} (h : ParserOcc p) : ParserName p.1 :=
+  h.elim Or.inl (fun h => Or.inr h.1)
+
 theorem isIdentStart_eq (c : Char) : isIdentStart c = Einx.Notation.isNameStart c := by
   simp [isIdentStart, Einx.Notation.isNameStart, Einx.Notation.isAsciiLetter]
 
@@ -53,7 +61,7 @@ theorem parserName_plain {s : String} (h : ParserName s) : plainName s = true :=
 
 mutual
 theorem N_occs : ∀ (x : Einx.Notation.Expr) (inBr al : Bool), N inBr al x = true →
-    ∀ st, ∀ p ∈ occs st (toSolve x), ParserName p.1
+    ∀ st, ∀ p ∈ occs st (toSolve x), ParserOcc p
   | .axis n v b e, inBr, al, h, st, p, hp => by
     cases v with
     | none =>
@@ -83,7 +91,7 @@ theorem N_occs : ∀ (x : Einx.Notation.Expr) (inBr al : Bool), N inBr al x = tr
           simp only [toSolve, occs, List.mem_singleton] at hp
           subst hp
           right
-          simp only [h, anonName, String.ofList_toList]
+          exact ⟨by simp only [h, anonName, String.ofList_toList], by simp⟩
         | some k => simp [isAnonAxisNone] at h
       | _ => simp [isAnonAxisNone] at h
     · exact N_occs i inBr true h.2 _ p hp
@@ -98,7 +106,7 @@ theorem N_occs : ∀ (x : Einx.Notation.Expr) (inBr al : Bool), N inBr al x = tr
   | .args .., _, _, h, _, _, _ => by simp [N] at h
   | .op .., _, _, h, _, _, _ => by simp [N] at h
 theorem NL_occs : ∀ (cs : List Einx.Notation.Expr) (inBr : Bool), NL inBr cs = true →
-    ∀ st, ∀ p ∈ occsL st (toSolveL cs), ParserName p.1
+    ∀ st, ∀ p ∈ occsL st (toSolveL cs), ParserOcc p
   | [], _, _, _, p, hp => by simp [toSolveL, occsL] at hp
   | c :: cs, inBr, h, st, p, hp => by
     simp only [NL, Bool.and_eq_true] at h
@@ -111,7 +119,7 @@ end
 /-- Every named axis of every operand expression of a `parseOp` result carries an identifier or the
 anonymous ellipsis name. -/
 theorem parseOp_names (text : Einx.Notation.Str) (t : Einx.Notation.Expr) (h : Einx.Notation.parseOp text = .ok t) :
-    ∀ e ∈ operandExprs t, ∀ st, ∀ p ∈ occs st e, ParserName p.1 := by
+    ∀ e ∈ operandExprs t, ∀ st, ∀ p ∈ occs st e, ParserOcc p := by
   have hr := (Einx.Notation.NF.parseOp_NRoot text t h).1
   intro e he st p hp
   cases t with
@@ -135,6 +143,6 @@ theorem parseOp_plainNames (text : Einx.Notation.Str) (t : Einx.Notation.Expr) (
   rintro n ⟨p, hp, rfl⟩
   unfold Input.occs at hp
   obtain ⟨tn, htn, hp⟩ := List.mem_flatMap.mp hp
-  exact parserName_plain (parseOp_names text t h _ (hts tn htn) [] p hp)
+  exact parserName_plain (parseOp_names text t h _ (hts tn htn) [] p hp).name
 
 end Einx.Solve
